@@ -1,4 +1,5 @@
 import FitProps.EndToEndItemsLemmas
+import FitProps.C06
 /-!
 File level of the end-to-end composition (C01): the decoder-API model's `Decode` on what `Fit.Wire.encodeFit` writes —
 file header, record loop (`bridge_records` on the items `C01_wire_records` provides, interpreted by `good_items`),
@@ -430,5 +431,369 @@ theorem decodeLoop_chain (o : DecApi.Opts) (w : Wire.Opts) (ho : PlainOpts o) (h
       refine ⟨f :: fits, ?_, AllMatch.cons ⟨hmatch, hh1, hh2, hh3⟩ hm⟩
       simp only [decodeLoop, hn1]
       simp only [DecApi.step, hd1, hdec, hl]
+
+/-! ### what the gate lets through (C10) -/
+
+open Fit.Validator in
+theorem keptOK_of_validateAll (D : Discard) (vo : Options) : ∀ (ms : List Message) (st : State) (kept : List Message),
+    validateAll D vo st ms = .ok kept → KeptOK st kept ∧ kept.length = ms.length := by
+  intro ms
+  induction ms with
+  | nil =>
+    intro st kept h
+    simp only [validateAll, Except.ok.injEq] at h
+    subst h
+    exact ⟨trivial, rfl⟩
+  | cons m ms ih =>
+    intro st kept h
+    simp only [validateAll] at h
+    cases hv : validate D vo st m with
+    | mk r st' =>
+      rw [hv] at h
+      cases r with
+      | error e => simp at h
+      | ok m' =>
+        simp only at h
+        cases hr : validateAll D vo st' ms with
+        | error e => rw [hr] at h; simp [Except.map] at h
+        | ok kept' =>
+          rw [hr] at h
+          simp only [Except.map, Except.ok.injEq] at h
+          subst h
+          have hok : (validate D vo st m).1 = .ok m' := by rw [hv]
+          obtain ⟨hlf, hld, _, hpf, hpd⟩ := Fit.C10.C10_post D vo st m m' hok
+          have hst := validate_state D vo st m m' hok
+          have hnum := (Fit.C10.C10_validate_filter D vo st m m' hok).1
+          have hst' : st' = remember st m'.num m'.fields := by
+            have : (validate D vo st m).2 = st' := by rw [hv]
+            rw [← this, hst, hnum]
+          obtain ⟨ih1, ih2⟩ := ih st' kept' hr
+          refine ⟨⟨hlf, hld, ?_, ?_, by rw [← hst']; exact ih1⟩, by simp [ih2]⟩
+          · intro f hf
+            obtain ⟨b, hb, _, hal, _, hsz, _⟩ := hpf f hf
+            exact ⟨b, hb, hal, hsz⟩
+          · intro d hd
+            obtain ⟨fd, hl, _, hal, _, hsz, _⟩ := hpd d hd
+            rw [hst, ← hnum] at hl
+            exact ⟨fd, hl, hal, hsz⟩
+
+theorem btValid_wire (b : Nat) (h : btValid b = true) : Wire.validBaseType b = true := by
+  have hm := (btValid_iff b).mp h
+  simp only [baseTypeList, List.mem_cons, List.not_mem_nil, or_false] at hm
+  rcases hm with h | h | h | h | h | h | h | h | h | h | h | h | h | h | h | h | h <;> subst h <;> decide
+
+/-- the wire form of a validated message is well-typed -/
+theorem toWire_ok (fac : Factory) (arch : Nat) (st : Fit.Validator.State) (m : Message) (ms : List Message)
+    (hk : KeptOK st (m :: ms)) (hd : MsgDom fac m) : Wire.MsgOK (toWire arch m) ∧ MsgTyped (toWire arch m) := by
+  obtain ⟨hlf, hld, hF, hD, _⟩ := hk
+  have hfl : (m.fields.filterMap (toWField arch)).length ≤ m.fields.length := List.length_filterMap_le _ _
+  have hmar : ∀ (v : Value) (bt : Nat), align v bt = true → ∃ bs, marshal v arch = some bs := by
+    intro v bt hal
+    cases hv : marshal v arch with
+    | some bs => exact ⟨bs, rfl⟩
+    | none =>
+      have : v = .invalid := by cases hx : v <;> rw [hx] at hv <;> simp [marshal] at hv
+      rw [this] at hal; simp [align] at hal
+  have hfield : ∀ wf' ∈ (toWire arch m).fields, ∃ f ∈ m.fields, ∃ b bs, f.base = some b ∧ marshal f.value arch = some bs ∧
+      wf' = ⟨b.num, b.baseType, typeOf f.value, bs⟩ := by
+    intro wf' hwf'
+    simp only [toWire, List.mem_filterMap] at hwf'
+    obtain ⟨f, hf, htw⟩ := hwf'
+    obtain ⟨b, hb, hal, _⟩ := hF f hf
+    obtain ⟨bs, hm⟩ := hmar f.value b.baseType hal
+    refine ⟨f, hf, b, bs, hb, hm, ?_⟩
+    simp only [toWField, hb, hm, Option.getD_some, Option.some.injEq] at htw
+    exact htw.symm
+  refine ⟨⟨hd.num, by simp only [toWire]; omega, by simp only [toWire, List.length_map]; exact hld, ?_, ?_, ?_⟩, ⟨?_, ?_, ?_⟩⟩
+  · intro wf' hwf'
+    obtain ⟨f, hf, b, bs, hb, hm, rfl⟩ := hfield wf' hwf'
+    obtain ⟨b', hb', hal, hsz⟩ := hF f hf
+    rw [hb] at hb'; cases hb'
+    exact ⟨by simp only; rw [marshal_length _ _ _ hm]; exact hsz, btValid_wire _ (align_valid _ _ hal)⟩
+  · intro d hd'
+    simp only [toWire, List.mem_map] at hd'
+    obtain ⟨d0, hd0, rfl⟩ := hd'
+    obtain ⟨fd, _, hal, hsz⟩ := hD d0 hd0
+    obtain ⟨bs, hm⟩ := hmar d0.value fd.btId hal
+    simp only [toWDev, hm, Option.getD_some]
+    rw [marshal_length _ _ _ hm]; exact hsz
+  · intro wf' hwf'
+    obtain ⟨f, hf, b, bs, hb, hm, rfl⟩ := hfield wf' hwf'
+    exact Fit.C06.C06_marshal_bytes f.value arch bs (hd.wff f hf) hm
+  · intro wf' hwf'
+    obtain ⟨f, hf, b, bs, hb, hm, rfl⟩ := hfield wf' hwf'
+    exact hd.fnums f hf b hb
+  · intro d hd'
+    simp only [toWire, List.mem_map] at hd'
+    obtain ⟨d0, hd0, rfl⟩ := hd'
+    exact hd.dnums d0 hd0
+  · intro d hd'
+    simp only [toWire, List.mem_map] at hd'
+    obtain ⟨d0, hd0, rfl⟩ := hd'
+    obtain ⟨fd, _, hal, _⟩ := hD d0 hd0
+    obtain ⟨bs, hm⟩ := hmar d0.value fd.btId hal
+    simp only [toWDev, hm, Option.getD_some]
+    exact Fit.C06.C06_marshal_bytes d0.value arch bs (hd.wfd d0 hd0) hm
+
+theorem toWire_all (fac : Factory) (arch : Nat) : ∀ (kept : List Message) (st : Fit.Validator.State),
+    KeptOK st kept → (∀ m ∈ kept, MsgDom fac m) →
+    ∀ wm ∈ kept.map (toWire arch), Wire.MsgOK wm ∧ MsgTyped wm := by
+  intro kept
+  induction kept with
+  | nil => intro _ _ _ wm h; cases h
+  | cons m ms ih =>
+    intro st hk hd wm hwm
+    simp only [List.map_cons, List.mem_cons] at hwm
+    rcases hwm with rfl | hwm
+    · exact toWire_ok fac arch st m ms hk (hd m (by simp))
+    · exact ih _ hk.2.2.2.2 (fun x hx => hd x (List.mem_cons_of_mem _ hx)) wm hwm
+
+/-! ### outside the finding classes the code returns the normal form -/
+
+theorem readAs_bt (fac : Factory) (m : Nat) (f : Field) (b : FieldBase) (hb : f.base = some b)
+    (hag : agreeField fac m f = true) : (readAs fac m b f.value).1 = b.baseType := by
+  simp only [agreeField, hb, Bool.and_eq_true, beq_iff_eq] at hag
+  unfold readAs
+  cases hk : (fac.create m b.num).known
+  · simp [hk]
+  · simp only [hk, Bool.not_true, Bool.false_or, Bool.and_eq_true, beq_iff_eq] at hag
+    simp [hk, hag.2.1.1]
+
+theorem fieldBack_normal (fac : Factory) (m : Nat) (f : Field) (hF : FieldOK f) (hwf : wf f.value = true)
+    (hag : agreeField fac m f = true)
+    (hz : fieldClass (fun _ _ _ v => kfZeroV v) fac m f = false) (ha : fieldClass kfArrV fac m f = false)
+    (hc : fieldClass (fun _ _ _ v => kfFFFDV v) fac m f = false) :
+    fieldBack reread true fac m f = fieldBack normalValue false fac m f := by
+  obtain ⟨b, hb, hal, _⟩ := hF
+  simp only [fieldClass, hb] at hz ha hc
+  have hz' : size f.value ≠ 0 := by simpa [kfZeroV] using hz
+  have hbt := readAs_bt fac m f b hb hag
+  have hcl : cleanAll f.value = true := by
+    simp only [kfFFFDV, Bool.or_eq_false_iff, Bool.not_eq_false'] at hc
+    simp [cleanAll, hc.1, hc.2]
+  simp only [fieldBack, hb, hz', decide_false, Bool.and_false, Bool.false_eq_true, ↓reduceIte, Bool.false_and, and_false,
+    false_and]
+  congr 2
+  exact reread_eq_normal f.value _ _ _ hwf (by rw [hbt]; exact hal) hcl hz ha
+
+theorem devBack_normal (fds : List Fit.Validator.FieldDesc) (d : DevField) (hwf : wf d.value = true)
+    (hD : ∃ fd, Fit.Validator.lookupFd fds d = some fd ∧ align d.value fd.btId = true ∧ size d.value ≤ 255)
+    (hz : devClass (fun _ _ _ v => kfZeroV v) fds d = false) (ha : devClass kfArrV fds d = false)
+    (hc : devClass (fun _ _ _ v => kfFFFDV v) fds d = false) :
+    devBack reread true fds d = devBack normalValue false fds d := by
+  obtain ⟨fd, hl, hal, _⟩ := hD
+  simp only [devClass, hl] at hz ha hc
+  have hz' : size d.value ≠ 0 := by simpa [kfZeroV] using hz
+  have hcl : cleanAll d.value = true := by
+    simp only [kfFFFDV, Bool.or_eq_false_iff, Bool.not_eq_false'] at hc
+    simp [cleanAll, hc.1, hc.2]
+  simp only [devBack, hl, hz', decide_false, Bool.and_false, Bool.false_eq_true, ↓reduceIte, Bool.false_and, and_false,
+    false_and]
+  congr 2
+  exact reread_eq_normal d.value _ _ _ hwf hal hcl hz ha
+
+theorem filterMap_congr' {α β : Type} (g1 g2 : α → Option β) (l : List α) (h : ∀ x ∈ l, g1 x = g2 x) :
+    l.filterMap g1 = l.filterMap g2 := by
+  induction l with
+  | nil => rfl
+  | cons x xs ih =>
+    simp only [List.filterMap_cons, h x (by simp)]
+    rw [ih (fun y hy => h y (List.mem_cons_of_mem _ hy))]
+
+/-- **Outside the three finding classes the code returns the normal form the property allows.** -/
+theorem seqMatches_normal (fac : Factory) (arch : Nat) : ∀ (kept : List Message) (vst : Fit.Validator.State) (ns : List NMsg),
+    KeptOK vst kept → (∀ m ∈ kept, MsgDom fac m) →
+    seqClass (fun _ _ _ v => kfZeroV v) fac vst kept = false → seqClass kfArrV fac vst kept = false →
+    seqClass (fun _ _ _ v => kfFFFDV v) fac vst kept = false →
+    seqMatches reread true fac arch vst kept ns = true → seqMatches normalValue false fac arch vst kept ns = true := by
+  intro kept
+  induction kept with
+  | nil => intro vst ns _ _ _ _ _ h; cases ns <;> simpa [seqMatches] using h
+  | cons m ms ih =>
+    intro vst ns hk hd hz ha hc h
+    cases ns with
+    | nil => simp [seqMatches] at h
+    | cons n ns =>
+      obtain ⟨_, _, hF, hD, hkr⟩ := hk
+      have hdm := hd m (by simp)
+      simp only [seqClass, Bool.or_eq_false_iff, List.any_eq_false] at hz ha hc
+      simp only [seqMatches, Bool.and_eq_true] at h ⊢
+      refine ⟨?_, ih _ ns hkr (fun x hx => hd x (List.mem_cons_of_mem _ hx)) hz.2 ha.2 hc.2 h.2⟩
+      have hfe : ∀ fs : List Field, (∀ f ∈ fs, f ∈ m.fields) →
+          fs.filterMap (fieldBack reread true fac m.num) = fs.filterMap (fieldBack normalValue false fac m.num) := by
+        intro fs hsub
+        apply filterMap_congr'
+        intro f hf
+        have hfm := hsub f hf
+        exact fieldBack_normal fac m.num f (hF f hfm) (hdm.wff f hfm) (hdm.agree f hfm).2
+          (by simpa using hz.1.1 f hfm) (by simpa using ha.1.1 f hfm) (by simpa using hc.1.1 f hfm)
+      have hde : m.devFields.filterMap (devBack reread true (Fit.Validator.remember vst m.num m.fields).fds) =
+          m.devFields.filterMap (devBack normalValue false (Fit.Validator.remember vst m.num m.fields).fds) := by
+        apply filterMap_congr'
+        intro d hd'
+        exact devBack_normal _ d (hdm.wfd d hd') (hD d hd') (by simpa using hz.1.2 d hd') (by simpa using ha.1.2 d hd')
+          (by simpa using hc.1.2 d hd')
+      have : msgVariants normalValue false fac arch (Fit.Validator.remember vst m.num m.fields).fds m =
+          msgVariants reread true fac arch (Fit.Validator.remember vst m.num m.fields).fds m := by
+        simp only [msgVariants, hfe m.fields (fun f hf => hf), hfe (removeTs m.fields) (mem_removeTs m.fields), hde]
+      rw [this]; exact h.1
+
+/-! ### the encoder's chain and the composition -/
+
+/-- typing of the configuration: option combination of the wire model, header members fit their fields -/
+structure CfgOK (c : Cfg) (files : List FileIn) : Prop where
+  w : OptsOK c.w
+  profile : c.profileVersion < 65536
+  files : ∀ f ∈ files, f.hprofile < 65536 ∧ fileVersion c f < 256
+
+/-- the files of a chain with what validation retained of each -/
+def filesOf (c : Cfg) (files : List FileIn) (kepts : List (List Message)) : List (Wire.Hdr × List Message) :=
+  (files.zip kepts).map fun p => (fileHdr c p.1, p.2)
+
+theorem encodeChain_ok (c : Cfg) : ∀ (files : List FileIn) (i : Nat) (kepts : List (List Message)) (bytes : List Nat),
+    encodeChain c files i = (kepts, bytes, none) →
+    kepts.length = files.length ∧ bytes = chainBytes c.w (filesOf c files kepts) ∧
+    ∀ p ∈ files.zip kepts, gate c p.1 = .ok p.2 := by
+  intro files
+  induction files with
+  | nil =>
+    intro i kepts bytes h
+    simp only [encodeChain, Prod.mk.injEq] at h
+    obtain ⟨rfl, rfl, _⟩ := h
+    exact ⟨rfl, rfl, fun p hp => by cases hp⟩
+  | cons f fs ih =>
+    intro i kepts bytes h
+    simp only [encodeChain] at h
+    cases he : encodeFile c f with
+    | error e => rw [he] at h; simp at h
+    | ok pr =>
+      obtain ⟨kept, bs⟩ := pr
+      rw [he] at h
+      simp only at h
+      cases hr : encodeChain c fs (i + 1) with
+      | mk ks rest =>
+        obtain ⟨rest, e⟩ := rest
+        rw [hr] at h
+        simp only [Prod.mk.injEq] at h
+        obtain ⟨rfl, rfl, rfl⟩ := h
+        obtain ⟨i1, i2, i3⟩ := ih (i + 1) ks rest hr
+        have hg : gate c f = .ok kept ∧ bs = encodeKept c f kept := by
+          simp only [encodeFile] at he
+          cases hgt : gate c f with
+          | error e => rw [hgt] at he; cases he
+          | ok k =>
+            rw [hgt] at he
+            simp only [Except.ok.injEq, Prod.mk.injEq] at he
+            obtain ⟨rfl, rfl⟩ := he
+            exact ⟨rfl, rfl⟩
+        refine ⟨by simp [i1], ?_, ?_⟩
+        · rw [hg.2, i2]
+          simp [chainBytes, filesOf, encodeKept]
+        · intro p hp
+          simp only [List.zip_cons_cons, List.mem_cons] at hp
+          rcases hp with rfl | hp
+          · exact hg.1
+          · exact i3 p hp
+
+/-- a file that passed the gate is well-typed for the wire theorems, given the typing assumptions -/
+theorem fileOK_of_gate (c : Cfg) (o : DecApi.Opts) (f : FileIn) (kept : List Message) (hw : OptsOK c.w)
+    (hg : gate c f = .ok kept) (hdom : inDomain o.fac kept = true) (hp : c.profileVersion < 65536)
+    (hf : f.hprofile < 65536 ∧ fileVersion c f < 256)
+    (hsmall : (encodeMsgs c.w (freshEnc c.w) (kept.map (toWire c.w.arch))).length < 4294967296) :
+    FileOK o c.w (fileHdr c f) kept := by
+  obtain ⟨_, hmd⟩ := inDomain_unpack o.fac kept hdom
+  -- the gate
+  have hgate : f.msgs ≠ [] ∧ ∃ st, Fit.Validator.validateAll c.D c.vo st f.msgs = .ok kept ∧ st = {} := by
+    simp only [gate] at hg
+    split at hg
+    · cases hg
+    · rename_i hne
+      refine ⟨by simpa [List.isEmpty_iff] using hne, ?_⟩
+      simp only [Fit.Validator.gateBatch] at hg
+      cases hpa : Fit.Validator.protoAll (fileVersion c f) f.msgs with
+      | panic => rw [hpa] at hg; cases hg
+      | err e => rw [hpa] at hg; cases hg
+      | ok u =>
+        rw [hpa] at hg
+        simp only at hg
+        cases hva : Fit.Validator.validateAll c.D c.vo {} f.msgs with
+        | error e => rw [hva] at hg; cases hg
+        | ok k =>
+          rw [hva] at hg
+          simp only [Except.ok.injEq] at hg
+          subst hg
+          exact ⟨_, hva, rfl⟩
+  obtain ⟨hne, st, hva, rfl⟩ := hgate
+  obtain ⟨hk, hlen⟩ := keptOK_of_validateAll c.D c.vo f.msgs {} kept hva
+  have hall := toWire_all o.fac c.w.arch kept {} hk hmd
+  have hkne : kept ≠ [] := by
+    intro h; rw [h] at hlen
+    cases hm : f.msgs with
+    | nil => exact hne hm
+    | cons _ _ => rw [hm] at hlen; simp at hlen
+  refine ⟨⟨?_, ?_, by simpa using hkne, fun m hm => (hall m hm).1, hsmall⟩, fun m hm => (hall m hm).2, hk, hmd, ?_⟩
+  · simp only [fileHdr, Wire.mkHdr]; split <;> simp
+  · simp only [fileHdr, Wire.mkHdr]; split
+    · exact hp
+    · exact hf.1
+  · simp only [fileHdr, Wire.mkHdr]; exact hf.2
+
+theorem chainBytes_length_ge (w : Wire.Opts) (files : List (Wire.Hdr × List Message)) :
+    files.length ≤ (chainBytes w files).length := by
+  induction files with
+  | nil => simp [chainBytes]
+  | cons f fs ih =>
+    have := encodeFit_pos w f.1 (f.2.map (toWire w.arch))
+    simp only [chainBytes, List.flatMap_cons, List.length_append, List.length_cons] at ih ⊢
+    omega
+
+theorem mem_chain_length (w : Wire.Opts) (files : List (Wire.Hdr × List Message)) (f : Wire.Hdr × List Message) (hf : f ∈ files) :
+    (encodeFit w f.1 (f.2.map (toWire w.arch))).length ≤ (chainBytes w files).length := by
+  induction files with
+  | nil => cases hf
+  | cons g gs ih =>
+    simp only [chainBytes, List.flatMap_cons, List.length_append]
+    rcases List.mem_cons.mp hf with rfl | h
+    · omega
+    · have := ih h; simp only [chainBytes] at this; omega
+
+/-- **End to end, as the code behaves.** Every accepted chain of files — validated by the real validator model, written
+under any option combination — decodes (new decoder, any checksum setting, expansion off) to one sequence per file whose
+messages are what validation retained, each field and developer field as `reread` says (`fieldBack` / `devBack`), each
+message in one of the two places its timestamp may take. -/
+theorem e2e_chain (c : Cfg) (o : DecApi.Opts) (files : List FileIn) (kepts : List (List Message)) (bytes : List Nat)
+    (henc : encodeChain c files 0 = (kepts, bytes, none)) (hne : files ≠ [])
+    (hc : CfgOK c files) (ho : PlainOpts o) (hdom : ∀ kept ∈ kepts, inDomain o.fac kept = true)
+    (hsmall : bytes.length < 4294967296) :
+    ∃ fits, decodeChain o bytes = (fits, none) ∧ AllMatch (FitMatch o c.w) (filesOf c files kepts) fits ∧
+      ∀ file ∈ filesOf c files kepts, FileOK o c.w file.1 file.2 := by
+  obtain ⟨hlen, hbytes, hgates⟩ := encodeChain_ok c files 0 kepts bytes henc
+  have hfac : facOKB o.fac = true := by
+    cases hk : kepts with
+    | nil => rw [hk] at hlen; cases files <;> simp at hlen; exact absurd rfl hne
+    | cons k ks => exact (inDomain_unpack o.fac k (hdom k (by rw [hk]; simp))).1
+  have hfiles : ∀ file ∈ filesOf c files kepts, FileOK o c.w file.1 file.2 := by
+    intro file hfile
+    simp only [filesOf, List.mem_map] at hfile
+    obtain ⟨p, hp, rfl⟩ := hfile
+    have hk : p.2 ∈ kepts := (List.of_mem_zip hp).2
+    have hf : p.1 ∈ files := (List.of_mem_zip hp).1
+    refine fileOK_of_gate c o p.1 p.2 hc.w (hgates p hp) (hdom _ hk) hc.profile (hc.files _ hf) ?_
+    have hm : (fileHdr c p.1, p.2) ∈ filesOf c files kepts := List.mem_map.mpr ⟨p, hp, rfl⟩
+    have := mem_chain_length c.w (filesOf c files kepts) _ hm
+    rw [← hbytes] at this
+    simp only [encodeFit, List.length_append] at this
+    omega
+  have hfne : filesOf c files kepts ≠ [] := by
+    cases files with
+    | nil => exact absurd rfl hne
+    | cons f fs =>
+      cases kepts with
+      | nil => simp at hlen
+      | cons k ks => simp [filesOf]
+  obtain ⟨fits, h1, h2⟩ := decodeLoop_chain o c.w ho hc.w hfac (filesOf c files kepts) (Api.fresh o bytes) (bytes.length + 1)
+    (by rw [hbytes]; rfl) (fun _ => hfne) (by have := chainBytes_length_ge c.w (filesOf c files kepts); rw [← hbytes] at this; omega)
+    hfiles (by rw [← hbytes]; exact hsmall)
+  exact ⟨fits, h1, h2, hfiles⟩
 
 end Fit.E2E
